@@ -324,7 +324,7 @@ func (g *Generator) buildFlattenedVariantSchemas(
 		// Add discriminator field
 		discSchema := &base.Schema{
 			Type: []string{"string"},
-			Enum: []*yaml.Node{{Kind: yaml.ScalarNode, Value: variant.DiscriminatorVal}},
+			Enum: []*yaml.Node{{Kind: yaml.ScalarNode, Tag: "!!str", Value: variant.DiscriminatorVal}},
 		}
 		variantProps.Set(info.Discriminator, base.CreateSchemaProxy(discSchema))
 
@@ -432,7 +432,7 @@ func (g *Generator) buildNestedOneofVariants(
 		// Add discriminator property with enum of all possible values
 		var enumValues []*yaml.Node
 		for _, variant := range info.Variants {
-			enumValues = append(enumValues, &yaml.Node{Kind: yaml.ScalarNode, Value: variant.DiscriminatorVal})
+			enumValues = append(enumValues, &yaml.Node{Kind: yaml.ScalarNode, Tag: "!!str", Value: variant.DiscriminatorVal})
 		}
 		properties.Set(info.Discriminator, base.CreateSchemaProxy(&base.Schema{
 			Type: []string{"string"},
